@@ -173,7 +173,7 @@ def gen_grammar(rng):
 # edit scripts (interpreted by harness/regen, see its `apply_edit`) and settings chains
 # ---------------------------------------------------------------------------------------------
 
-INS_KINDS = ["use", "const", "static", "impl", "trait", "helper", "ustruct", "uenum", "utype", "mod", "macro"]
+INS_KINDS = ["use", "const", "static", "text", "text", "impl", "trait", "helper", "ustruct", "uenum", "utype", "mod", "macro"]
 EDIT_FAMILIES = ["none", "delete", "delete", "f17", "f17", "aux", "group", "retype", "rewrite", "rewrite", "insert",
                  "insert", "mixed", "mixed", "mixed", "heavy", "delall", "rename", "dup", "absent", "garbage"]
 SETTINGS = ["f0", "f0", "f0", "ast", "ast", "ist", "f0,ast", "ast,f0", "ist,a1", "f1", "-", "f1,ast", "ast,f1",
